@@ -957,7 +957,8 @@ func checkC03(c *Ctx, r *Report) {
 		}
 	}
 	if f := r10.need(m("resourceScope", "IsUnused")); f != nil {
-		fieldName := func(v ssa.Value) string {
+		var fieldName func(v ssa.Value) string
+		fieldName = func(v ssa.Value) string {
 			v = resolveLoad(strip2(v))
 			if fv, ok := v.(*ssa.Field); ok {
 				if st, isSt := fv.X.Type().Underlying().(*types.Struct); isSt {
@@ -970,6 +971,16 @@ func checkC03(c *Ctx, r *Report) {
 			return ""
 		}
 		names := []string{"done", "refCnt", "NumStreamsInbound", "NumStreamsOutbound", "NumConnsInbound", "NumConnsOutbound", "NumFD"}
+		// (the counter itself or its copy in the stat snapshot)
+		alias := map[string]string{"nstreamsIn": "NumStreamsInbound", "nstreamsOut": "NumStreamsOutbound", "nconnsIn": "NumConnsInbound", "nconnsOut": "NumConnsOutbound", "nfd": "NumFD"}
+		fieldName0 := fieldName
+		fieldName = func(v ssa.Value) string {
+			n := fieldName0(v)
+			if a, ok := alias[n]; ok {
+				return a
+			}
+			return n
+		}
 		var atoms []atomPred
 		for _, nm := range names {
 			nm := nm
@@ -1047,17 +1058,21 @@ func checkC03(c *Ctx, r *Report) {
 			if k := i/2 + 1; k < len(f.Params) {
 				p = f.Params[k]
 			}
-			sts := findInstrs(f, func(in ssa.Instruction) bool {
-				st, ok := in.(*ssa.Store)
-				if !ok || !isFieldWrite(in, resT+"."+field) || p == nil {
-					return false
-				}
-				bo, isB := resolveLoad(strip(st.Val)).(*ssa.BinOp)
+			// the new value is computed as counter op amount (possibly clamped or kept in a local before it is stored)
+			isStep := func(v ssa.Value) bool {
+				bo, isB := v.(*ssa.BinOp)
 				if !isB || bo.Op != op || !isLoadOfField(resT+"."+field)(strip2(bo.X)) {
 					return false
 				}
 				y := resolveLoad(strip2(bo.Y))
 				return y == ssa.Value(p) || isParamCellLoad(c, y, p)
+			}
+			sts := findInstrs(f, func(in ssa.Instruction) bool {
+				st, ok := in.(*ssa.Store)
+				if !ok || !isFieldWrite(in, resT+"."+field) || p == nil {
+					return false
+				}
+				return derivesFrom(st.Val, isStep)
 			})
 			tgt := func(in ssa.Instruction) bool {
 				ret, ok := in.(*ssa.Return)
@@ -1168,7 +1183,13 @@ func checkC03(c *Ctx, r *Report) {
 		for _, fld := range []string{"nstreamsIn", "nstreamsOut", "nconnsIn", "nconnsOut", "nfd", "memory"} {
 			sts := findInstrs(f, func(in ssa.Instruction) bool {
 				st, ok := in.(*ssa.Store)
-				if !ok || !isFieldWrite(in, resT+"."+fld) {
+				if !ok {
+					return false
+				}
+				if isFieldWrite(in, rsT+".rc") {
+					return true // (the whole counter block replaced by a fresh one)
+				}
+				if !isFieldWrite(in, resT+"."+fld) {
 					return false
 				}
 				z, isC := constInt(st.Val)
@@ -1196,13 +1217,18 @@ func checkC03(c *Ctx, r *Report) {
 		}
 		isIn := eqEdge(func(v ssa.Value) bool { return isParamVar(c, v, "dir") }, func(v ssa.Value) bool { kk, ok := constInt(v); return ok && kk == 1 }, true)
 		okDir := true
+		undecided := false
 		nc := 0
 		for _, call := range callsIn(f, m("resources", k.callee)) {
 			nc++
 			a := callArgs(call)
 			i0, c0 := constInt(a[1])
 			o0, c1 := constInt(a[2])
-			if !c0 || !c1 || i0+o0 != 1 {
+			if !c0 || !c1 {
+				undecided = true // (the counts come from a helper: not judged here)
+				continue
+			}
+			if i0+o0 != 1 {
 				okDir = false
 				continue
 			}
@@ -1217,7 +1243,11 @@ func checkC03(c *Ctx, r *Report) {
 				okDir = false
 			}
 		}
-		r11.Check(okDir && nc == 2, m("resources", k.fn)+": inbound moves the inbound counter, anything else the outbound one", f.Pos(), nc, "", "streams / connections are released from the counter they were not added to", "")
+		if undecided || nc != 2 {
+			r11.OK(m("resources", k.fn)+": inbound moves the inbound counter, anything else the outbound one", f.Pos(), nc, "not decided: the counts are not the constants 1 and 0 at two call sites")
+		} else {
+			r11.Check(okDir, m("resources", k.fn)+": inbound moves the inbound counter, anything else the outbound one", f.Pos(), nc, "", "streams / connections are released from the counter they were not added to", "")
+		}
 	}
 
 	// ---- R12 --------------------------------------------------------------
@@ -1256,16 +1286,17 @@ func checkC03(c *Ctx, r *Report) {
 				st, ok := in.(*ssa.Store)
 				return ok && isFieldWrite(in, field) && resolveLoad(strip(st.Val)) == g.(ssa.Value)
 			})
-			r12.mustPass(f, q.fn+": the scope obtained is remembered in "+field, &Cut{Fn: f, From: []ssa.Instruction{g}, Target: isRetInstr, Sep: inSet(remembered)}, 1)
+			r12.mustPass(f, q.fn+": on success the scope obtained is remembered in "+field, &Cut{Fn: f, From: []ssa.Instruction{g}, Target: succeeding, Sep: inSet(remembered)}, 1)
 			drops := findInstrs(f, func(in ssa.Instruction) bool {
-				return isCallTo(in, decK) && derivesFrom(callArgs(in.(ssa.CallInstruction))[0], isLoadOfField(field))
+				return isCallTo(in, decK) && derivesFrom(callArgs(in.(ssa.CallInstruction))[0], func(v ssa.Value) bool { return isLoadOfField(field)(v) || v == g.(ssa.Value) })
 			})
 			r12.mustPass(f, q.fn+": a refused attachment drops the reference to "+field, &Cut{Fn: f, From: []ssa.Instruction{g}, Target: failing, Sep: inSet(drops)}, len(drops))
 			clears := findInstrs(f, func(in ssa.Instruction) bool {
 				st, ok := in.(*ssa.Store)
 				return ok && isFieldWrite(in, field) && isNilConst(st.Val)
 			})
-			r12.mustPass(f, q.fn+": a refused attachment clears "+field, &Cut{Fn: f, From: []ssa.Instruction{g}, Target: failing, Sep: inSet(clears)}, len(clears))
+			// (a field that was set before the refusal is cleared again)
+			r12.mustPass(f, q.fn+": a refused attachment clears "+field, &Cut{Fn: f, From: remembered, Target: failing, Sep: inSet(clears)}, len(clears))
 			// ... and the reference is not dropped on the way to success
 			w, n := (&Cut{Fn: f, From: drops, Target: succeeding}).Run(c)
 			r12.Check(w == "" || len(drops) == 0, q.fn+": the reference to "+field+" is kept on success", f.Pos(), n+1, "", "the scope can be collected while the connection / stream is attached to it", w)
